@@ -2,12 +2,13 @@
 # usage: trymutant.sh <PROP> <patch.diff> [extra check args]   -- applies a seeded change to /repo, runs the
 # repository's tests and the property's check, and ALWAYS restores /repo afterwards.
 set -u
+R=${VERIF_REPO:-/repo}
 PROP=$1; PATCH=$2; shift 2
 export GOFLAGS=-mod=mod GOPROXY=off GOSUMDB=off GOTOOLCHAIN=local
-if [ -n "$(git -C /repo status --porcelain)" ]; then echo "repo not clean"; exit 9; fi
-git -C /repo apply "$PATCH" || { echo "patch does not apply"; exit 9; }
-trap 'git -C /repo checkout -- . ; git -C /repo clean -fdq' EXIT
-( cd /repo && go build ./... && go test -vet=off -count=1 ./... 2>&1 | tail -3 )
+if [ -n "$(git -C $R status --porcelain)" ]; then echo "repo not clean"; exit 9; fi
+git -C $R apply "$PATCH" || { echo "patch does not apply"; exit 9; }
+trap 'git -C $R checkout -- . ; git -C $R clean -fdq' EXIT
+( cd $R && go build ./... && go test -vet=off -count=1 ./... 2>&1 | tail -3 )
 echo "--- check $PROP"
 /verif/bin/check "$PROP" "$@" 2>&1 | cut -c1-700 | tail -12
 echo "check exit: ${PIPESTATUS[0]}"
